@@ -73,6 +73,8 @@ func runInstrument(repo, out string) error {
 				return false
 			}
 			switch sel.Sel.Name {
+			case "Lock", "RLock": // (and right after an acquire: what a lock-order inversion needs)
+				return true
 			case "Unlock", "RUnlock", "Put", "Store", "Swap", "CompareAndSwap", "StorePointer", "StoreInt32", "StoreInt64", "StoreUint32", "StoreUint64":
 				return true
 			}
